@@ -24,6 +24,8 @@ ENDIAN = ("any", "little", "big")
 LATTICE_OPTIONS = {"target_endianness", "enable_serialization_asserts", "omit_float_serialization_support"}
 
 RULES = {
+    "R-C14-F16-SPECIAL": "half-precision unpack: the test that separates infinity / NaN from finite halves includes the boundary "
+                         "(>= 0x7C00 on the magnitude bits, == on the masked exponent, or >= 2**16 on the scaled float)",
     "R-C14-SET-BOUND": "every store into a caller-supplied destination buffer (bit copy, memset/memmove, indexed store) made by a "
                        "set primitive is dominated by a comparison of the buffer size against offset + length that returns the "
                        "buffer-too-small error, and the stored extent is covered by the checked length; wrappers reach a store "
@@ -169,11 +171,21 @@ def run(ctx):
                 a, b = c["prints"].get(cname), x["prints"].get(xname)
                 if a is None or b is None:
                     raise AnalysisError(f"anchor missing: {cname if a is None else xname} at {point_name(p)}")
+                # the two routines are compared only while they have the same shape (statement count, nesting and statement kinds):
+                # then a differing constant / operator / operand is a slip in one of them.  If one side has been restructured the
+                # pair is not comparable and the rule does not decide (an independent rewrite is not a defect)
+                def shape(lines):
+                    return [re.sub(r"^([a-z]*\|)(if |while |v\d+:=)?.*$", lambda m_: m_.group(1) + (m_.group(2) or "=" if ":=" not in (m_.group(2) or "") else "decl"), ln) for ln in lines]
+                if shape(a) != shape(b):
+                    merged.setdefault((R, "u", f"{cname} == {xname}"), []).append((p, None))
+                    continue
                 diff = next((f"statement {i}: C `{u}` vs C++ `{v}`" for i, (u, v) in enumerate(zip(a, b)) if u != v), None)
-                if diff is None and len(a) != len(b):
-                    diff = f"{len(a)} vs {len(b)} statements"
                 key = f"{cname} == {xname}"
                 merged.setdefault((R, "x", key), []).append((p, diff))
+    ctx.unit("f16_pairs_not_comparable", sorted({key for (rule, lang, key) in merged if lang == "u"}))
+    for key in sorted({key for (rule, lang, key) in merged if lang == "u"} - {key for (rule, lang, key) in merged if lang == "x"}):
+        ctx.ob(R, CPP_TMPL, key, True, "not decided: the C and the C++ routine no longer have the same statement structure (one of them was restructured); "
+               "only structurally parallel routines are compared", _line_of(ctx, CPP_TMPL, key.split(" == ")[1]))
     for (rule, lang, key), items in sorted(merged.items()):
         if lang != "x":
             continue
